@@ -4,6 +4,7 @@ package ctlog
 
 import (
 	"fmt"
+	"os"
 	"strings"
 	"testing"
 
@@ -36,13 +37,23 @@ func TestVerifC04Storage(t *testing.T) {
 		dir, cleanup := simTempDir()
 		defer cleanup()
 		s := newSimSys(t, dir)
-		realStores := simWantReal(rapid.IntRange(0, 9).Draw(t, "realStores"))
+		big := (os.Getenv("VERIF_TIER") == "thorough" || os.Getenv("VERIF_BIG") != "") && rapid.IntRange(0, 59).Draw(t, "bigBase") <= simEnvInt("VERIF_BIG", 0)
+		bigNext := 0
+		if big {
+			var base *simSys
+			base, bigNext = simBigBase(t)
+			s = base.clone(dir)
+			s.activate()
+		}
+		realStores := !big && simWantReal(rapid.IntRange(0, 9).Draw(t, "realStores"))
 		if realStores {
 			defer simAttachRealStores(s, dir)()
 		}
 		s.auditNames = true
 		s.auditOnPublish = true
-		h := &simHist{s: s, opts: simHistOpts{MaxRounds: 7, ClockFaults: false, Faults: true, Shapes: c04Shapes}}
+		s.auditNames = true
+		s.auditOnPublish = true
+		h := &simHist{s: s, opts: simHistOpts{MaxRounds: 7, ClockFaults: false, Faults: true, Shapes: c04Shapes, Existing: big}, nextID: bigNext}
 		partialToFull := false
 		lastPub := int64(0)
 		h.afterRound = func(res *simRoundResult) error {
@@ -90,6 +101,7 @@ func TestVerifC04Storage(t *testing.T) {
 			}
 		}
 		add(realStores, "real-LocalBackend+SQLite")
+		add(big, "crosses-65536")
 		add(partialToFull, "partial->full-transition")
 		add(pre > 0, "has-precert")
 		add(iss > 0, "has-issuers")
